@@ -187,6 +187,18 @@ class VerifAccumulateOperation(FloatOperation):
         return FloatDataType(out)
 
 
+class VerifScaleAndNoteOperation(FloatOperation):
+    """data * factor; also stores the factor it used under the declared context key `last_factor`."""
+
+    @classmethod
+    def context_keys(cls):
+        return ["last_factor"]
+
+    def _process_logic(self, data, factor):
+        self._notify_context_update("last_factor", factor)
+        return FloatDataType(data.data * factor)
+
+
 class VerifKwOnlyScaleOperation(FloatOperation):
     """data * factor + offset, parameters declared keyword-only (after `*`, the style of the component guide)."""
 
